@@ -20,6 +20,7 @@ RULE = ("case = random family + type T (often a dataclass, plain or mixin, with 
         "(same value or both raise). Between observations further codecs, subclasses and format codecs for T are created "
         "and the earlier encoders are re-checked (history invariance). distinct_nontrivial = distinct (type shape, value / "
         "input fingerprint) pairs.")
+RULE += " Additions: ancestors compiled as members of a mixin class first; a dialect taking over a format-native type through the call keyword, Config.dialect and codec default_dialect."
 ASSUMPTIONS = ["agreement is relational: a defect shared by all entry points (e.g. finding F20) is invisible here by design",
                "exception classes may differ between entry points (InvalidFieldValue vs ValueError); only raise-vs-return and values are compared"]
 BUDGET_S = {"quick": 150, "thorough": 1200}
